@@ -50,6 +50,15 @@ impl Default for Store {
     }
 }
 
+thread_local! {
+    /// listing order given to every store created on this thread (configuration sweeps)
+    static DEFAULT_LIST_MODE: std::cell::RefCell<ListMode> = const { std::cell::RefCell::new(ListMode::Sorted) };
+}
+
+pub fn set_default_list_mode(m: ListMode) {
+    DEFAULT_LIST_MODE.with(|d| *d.borrow_mut() = m);
+}
+
 impl Store {
     pub fn new() -> Store {
         Store(Arc::new(Mutex::new(StoreState {
@@ -57,7 +66,7 @@ impl Store {
             log: vec![],
             fail: BTreeSet::new(),
             calls: 0,
-            list_mode: ListMode::Sorted,
+            list_mode: DEFAULT_LIST_MODE.with(|d| d.borrow().clone()),
             list_calls: vec![],
             reads: 0,
         })))
